@@ -14,7 +14,7 @@ cd $wt
 # where is the demo? an example or an in-tree test
 run_demo() {
   if [ -f $wt/examples/demo.rs ]; then (cd $wt && cargo run --offline --example demo >/dev/null 2>&1); echo $?;
-  else (cd $wt && cargo test --offline seed_demo >$wt/seed/demo_out.txt 2>&1); grep -q "test result: ok" $wt/seed/demo_out.txt && ! grep -q " 0 passed" $wt/seed/demo_out.txt && echo 0 || echo 1; fi
+  else (cd $wt && cargo test --offline --lib seed_demo >$wt/seed/demo_out.txt 2>&1); grep -E "^test result" $wt/seed/demo_out.txt | head -1 | grep -q "test result: ok. [1-9]" && echo 0 || echo 1; fi
 }
 git -C $wt apply -R --check $out/patch.diff 2>/dev/null || { echo "patch is not applied in the worktree as expected"; }
 tests_with=$(cd $wt && cargo nextest run --workspace --no-fail-fast --offline 2>&1 | grep -E "tests run:" | tail -1)
